@@ -26,13 +26,15 @@ type Verdict struct {
 
 const preamble = `(set-option :produce-models true)
 (set-logic ALL)
-(declare-sort Ref 0)
-(declare-sort Str 0)
-(declare-sort Iface 0)
-(declare-const null Ref)
-(declare-const inil Iface)
+(define-sort Ref () Int)
+(define-sort Str () Int)
+(define-sort Iface () Int)
+(define-fun null () Ref 0)
+(define-fun inil () Iface 0)
 (declare-fun itag (Iface) Int)
 (assert (= (itag inil) 0))
+(declare-fun at ((_ BitVec 64) (_ BitVec 64)) (_ BitVec 64))
+(assert (forall ((o (_ BitVec 64)) (j (_ BitVec 64))) (! (= (at o j) (bvadd o j)) :pattern ((at o j)))))
 (declare-fun strlen (Str) (_ BitVec 64))
 (declare-fun strbyte (Str (_ BitVec 64)) (_ BitVec 8))
 (assert (forall ((s Str)) (! (bvult (strlen s) (_ bv140737488355328 64)) :pattern ((strlen s)))))
@@ -48,11 +50,12 @@ func buildScript(r *FuncResult, o *Obl) string {
 		_ = s
 	}
 	sort.Strings(lits)
-	for _, n := range lits {
-		fmt.Fprintf(&b, "(declare-const %s Str)\n", n)
-	}
-	if len(lits) > 1 {
-		fmt.Fprintf(&b, "(assert (distinct %s))\n", strings.Join(lits, " "))
+	for i, n := range lits {
+		if n == "strlit!empty" {
+			fmt.Fprintf(&b, "(define-fun %s () Str 0)\n", n)
+			continue
+		}
+		fmt.Fprintf(&b, "(define-fun %s () Str %d)\n", n, i+1)
 	}
 	for s, n := range r.StrLits {
 		fmt.Fprintf(&b, "(assert (= (strlen %s) (_ bv%d 64)))\n", n, len(s))
@@ -96,6 +99,12 @@ var solvers = []solverSpec{
 	{"z3-new", func(f string, t float64) []string { return []string{"z3-new", fmt.Sprintf("-T:%d", int(t+0.999)), f} }},
 	{"cvc5", func(f string, t float64) []string {
 		return []string{"cvc5", fmt.Sprintf("--tlimit=%d", int(t*1000)), "--lang=smt2", f}
+	}},
+	{"cvc5-enum", func(f string, t float64) []string {
+		return []string{"cvc5", fmt.Sprintf("--tlimit=%d", int(t*1000)), "--lang=smt2", "--enum-inst", f}
+	}},
+	{"z3-new-mbqi", func(f string, t float64) []string {
+		return []string{"z3-new", fmt.Sprintf("-T:%d", int(t+0.999)), "smt.ematching=false", f}
 	}},
 	{"z3", func(f string, t float64) []string { return []string{"z3", fmt.Sprintf("-T:%d", int(t+0.999)), f} }},
 }
@@ -197,12 +206,12 @@ func discharge(r *FuncResult, o *Obl, dir string, timeout float64, thorough bool
 		return false
 	}
 	// stage A: z3-new alone, short
-	quick := 3.0
+	quick := 1.5
 	if timeout < quick {
 		quick = timeout
 	}
-	if o.Expect == "sat" && timeout > 5 {
-		timeout = 5 // reachability covers are best-effort
+	if o.Expect == "sat" && timeout > 3 {
+		timeout = 3 // reachability covers are best-effort
 	}
 	so := runSolver(context.Background(), solvers[0], file, quick)
 	if finish(so) {
@@ -216,10 +225,14 @@ func discharge(r *FuncResult, o *Obl, dir string, timeout float64, thorough bool
 	ctx, cancel := context.WithCancel(context.Background())
 	defer cancel()
 	ch := make(chan solverOut, len(solvers))
-	for _, s := range solvers {
+	racers := solvers
+	if o.Expect == "sat" {
+		racers = solvers[:2]
+	}
+	for _, s := range racers {
 		go func(s solverSpec) { ch <- runSolver(ctx, s, file, timeout) }(s)
 	}
-	for range solvers {
+	for range racers {
 		so := <-ch
 		if finish(so) {
 			return v
